@@ -11,15 +11,12 @@ From EV Require Import Base.Bytes gen.Consts Base.GoSem gen.Pure Helpers.Helpers
 
 Theorem tie_computeESDTNFTTokenKey : forall key nonce,
   P.computeESDTNFTTokenKey key nonce = Some (nft_key key nonce).
-Proof.
-  intros key n. unfold P.computeESDTNFTTokenKey, nft_key, u64_bytes, go_append, go_big_uint64_bytes. tie.
-Qed.
+Proof. intros key n. unfold P.computeESDTNFTTokenKey, nft_key, u64_bytes. tie. Qed.
+#[global] Hint Rewrite tie_computeESDTNFTTokenKey : pure_tie.
 (* the prefix variable noncePrefix = []byte(ElrondProtectedKeyPrefix + ESDTNFTLatestNonceIdentifier) is C.bif_noncePrefix *)
 Theorem tie_getNonceKey : forall tok, P.getNonceKey tok = Some (NP ++ tok).
-Proof.
-  intros tok. unfold P.getNonceKey, go_append. tie.
-  all: try (change C.bif_noncePrefix with NP; reflexivity).
-Qed.
+Proof. intros tok. unfold P.getNonceKey. change NP with C.bif_noncePrefix. tie. Qed.
+#[global] Hint Rewrite tie_getNonceKey : pure_tie.
 
 (* ---- key-layout facts of C15 on the generated functions (rewriting with the tie + the lemma of EnvSpec.v) ---- *)
 Theorem P_token_key_layout : forall tok nonce,
